@@ -209,7 +209,7 @@ def write_evidence(reg, prop, tier, seed, results, obligations, discharged, refu
     for o in obligations[:: max(1, len(obligations) // 6)][:6]:
         samples.append({"obligation": o["id"], "line": o.get("lineno"), "verdict": o["status"], "backend": o.get("backend"), "time_s": o.get("time")})
     assumptions = sorted(set(a for r in results for a in r.get("assumptions", [])) | set(meta.get("assumptions", [])))
-    n_known = sum(len(v[1]) for v in known_hit.values())
+    n_known = sum(1 for v in known_hit.values() for o in v[1] if not str(o.get("id", "")).startswith("oracle:"))
     all_proved = len(obligations) > 0 and len(discharged) + n_known == len(obligations) and not oor
     level = meta.get("level", "proof") if all_proved else "other"
     cov = {
